@@ -17,6 +17,16 @@ type CtxObj struct {
 	key, val Value
 	children []*CtxObj
 	name     string
+	cause    Value
+	afterFuncs []func(g *G)
+	values   *CtxObj // WithoutCancel: where values are looked up
+}
+
+func (c *CtxObj) parentCanceler() *CtxObj {
+	if c.parent == nil {
+		return nil
+	}
+	return c.parent.canceler()
 }
 
 func (c *CtxObj) String() string { return "ctx#" + itoa(c.id) + "(" + c.kind + ")" }
@@ -98,6 +108,11 @@ func (g *G) ctxCancel(c *CtxObj, err Value) {
 		c.done.closed = true
 	}
 	g.run.obs = append(g.run.obs, c.String()+" cancelled")
+	afs := c.afterFuncs
+	c.afterFuncs = nil
+	for _, f := range afs {
+		f(g)
+	}
 	for _, ch := range c.children {
 		g.ctxCancel(ch, err)
 	}
@@ -191,6 +206,9 @@ func init() {
 			for c := g.ctxObj(a[0]); c != nil; c = c.parent {
 				if c.kind == "value" && g.branch(eqVals(g, c.key, k)) {
 					return c.val
+				}
+				if c.values != nil {
+					c = &CtxObj{parent: c.values}
 				}
 			}
 			return Iface{}
